@@ -1,7 +1,7 @@
 (* C19 -- Type descriptions round-trip and inferred schemas accept their data.
    Only statements, each closed by [exact] of a lemma from PV.Proofs.Types*. *)
-From Coq Require Import ZArith NArith List Bool String.
-Require Import PV.Base.Val PV.Gen.TypeTables PV.Model.Types PV.Proofs.TypesJson PV.Proofs.TypesRows PV.Proofs.TypesInfer PV.Proofs.TypesEqv.
+From Coq Require Import ZArith NArith List Bool String PrimFloat.
+Require Import PV.Base.Val PV.Gen.TypeTables PV.Model.Types PV.Proofs.TypesJson PV.Proofs.TypesRows PV.Proofs.TypesInfer PV.Proofs.TypesEqv PV.Proofs.TypesOrder.
 Import ListNotations.
 Open Scope Z_scope.
 
@@ -231,3 +231,44 @@ Theorem C19_create_with_schema_id : forall local fs rows,
   inferable (TStruct fs) -> Forall (is_row_of (TStruct fs)) rows ->
   create_with_schema local (TStruct fs) rows = Ok (map (tz_local local) rows).
 Proof. exact create_with_schema_id. Qed.
+
+(* ---- the order of the rows does not matter: a row that by itself determines every type (anywhere in the
+   list, after any number of rows whose maps/arrays are empty or hold only None) makes inference answer the
+   tree -- in particular the key type of a map that an earlier row left undetermined is merged in *)
+Theorem C19_infer_with_full_row : forall fs rows1 r rows2,
+  inferable (TStruct fs) -> has_nulltype (TStruct fs) = false ->
+  Forall (is_row_of (TStruct fs)) (rows1 ++ r :: rows2) ->
+  infer_schema r = Ok (TStruct fs) ->
+  infer_schema_from_list (rows1 ++ r :: rows2) = Ok (TStruct fs).
+Proof. exact infer_with_full_row. Qed.
+(* merging with the complete tree gives the complete tree, on either side *)
+Theorem C19_merge_full : forall t, inferable t -> forall b, below b t ->
+  merge_type t b = Ok t /\ merge_type b t = Ok t.
+Proof. exact merge_full. Qed.
+
+(* ---- the RDD input path (SparkSession._inferSchema: first row, then the following rows until no NullType is
+   left): same answer, same rows back *)
+Theorem C19_infer_rdd_result : forall fs rows, inferable (TStruct fs) -> Forall (is_row_of (TStruct fs)) rows ->
+  infer_schema_rdd rows = Ok (TStruct fs) \/ infer_schema_rdd rows = Err EValue \/
+  infer_schema_rdd rows = Err EStopIteration.
+Proof. exact infer_rdd_result. Qed.
+Theorem C19_create_rdd_id : forall local fs rows s,
+  inferable (TStruct fs) -> Forall (is_row_of (TStruct fs)) rows ->
+  infer_schema_rdd rows = Ok s ->
+  s = TStruct fs /\ Forall (fun r => verify s true r = Ok tt) rows /\
+  create_inferred_rdd local rows = Ok (map (tz_local local) rows).
+Proof. exact create_rdd_id. Qed.
+
+(* regression (rows of seeded change C19_m3): the first row's map is empty / holds only None *)
+Example late_map_regression :
+  infer_schema_from_list
+    [PRow [lit "m"; lit "n"] [PDict [(PStr (lit "a"), PNone)]; PInt 1];
+     PRow [lit "m"; lit "n"] [PDict [(PStr (lit "a"), PInt 1)]; PInt 2]]
+  = Ok (TStruct [SField (lit "m") (TMap (TAtom AString) (TAtom ALong) true) true [];
+                 SField (lit "n") (TAtom ALong) true []]) /\
+  infer_schema_rdd
+    [PRow [lit "m"; lit "n"] [PDict []; PInt 1];
+     PRow [lit "m"; lit "n"] [PDict [(PInt 7, PFloat 1.5%float)]; PInt 2]]
+  = Ok (TStruct [SField (lit "m") (TMap (TAtom ALong) (TAtom ADouble) true) true [];
+                 SField (lit "n") (TAtom ALong) true []]).
+Proof. vm_compute. split; reflexivity. Qed.
